@@ -123,6 +123,9 @@ def run(run):
         two, three, extra = C.predicate_formulas(rng)
         cases += K.standard_cases([f"pred:{f}:id" for f in extra + two[::3]], ["range"], lays[::4], n=n)
     run_cases(run, "vf.props.C02", "check_case", cases, {})
+    from vf.contracts.registry import run_property_specs
+
+    run_property_specs(run, "C02")
     run.assume("oracle = pandas 3.0.5 on the concatenated input in the dtypes of the input tables; row order / index labels compared only where the program defines them")
     run.assume("an explicit error (NotImplementedError / ValueError ...) instead of a value is a refusal, allowed by the property, and is counted under C02.refusals")
     run.trust("vf/rt/corpus.py program catalogue (same text runs on pandas and dask-expr), comparator vf/rt/den.py")
